@@ -155,6 +155,8 @@ type spend struct {
 	amount   int64
 	flags    txscript.ScriptFlags
 	ctx      TxCtx
+
+	realFunding bool // the outpoint is that of funding()
 }
 
 var fundingPrev = chainhash.Hash(sha256.Sum256([]byte("verif-script-prevout")))
@@ -170,7 +172,14 @@ func (s *spend) funding() *wire.MsgTx {
 func (s *spend) tx() *wire.MsgTx {
 	tx := wire.NewMsgTx(s.ctx.Ver)
 	tx.LockTime = s.ctx.Lock
-	prevHash := s.funding().TxHash()
+	// The enumerated programs may push a signature of their own (FindAndDelete):
+	// that is only constructible when the outpoint does not depend on the
+	// script, so those spends use a fixed outpoint; the sequencing scenarios
+	// (realFunding) spend a real funding transaction.
+	prevHash := fundingPrev
+	if s.realFunding {
+		prevHash = s.funding().TxHash()
+	}
 	in := wire.NewTxIn(wire.NewOutPoint(&prevHash, 0), s.sigScr, nil)
 	in.Sequence = s.ctx.Seq
 	if len(s.witness) > 0 {
@@ -710,6 +719,7 @@ type progSession struct {
 	b       *binder
 	nodes   map[uint64]*pnode
 	perRun  map[string]int
+	roots   map[string]int
 	work    chan []*progCase
 	wg      sync.WaitGroup
 	emu     sync.Mutex
@@ -728,7 +738,7 @@ type parkedProg struct {
 }
 
 func (b *binder) newProgSession() *progSession {
-	s := &progSession{b: b, nodes: map[uint64]*pnode{}, perRun: map[string]int{}, work: make(chan []*progCase, 256)}
+	s := &progSession{b: b, nodes: map[uint64]*pnode{}, perRun: map[string]int{}, roots: map[string]int{}, work: make(chan []*progCase, 256)}
 	nw := min(b.c.Workers, 8)
 	for i := 0; i < nw; i++ {
 		s.wg.Add(1)
@@ -810,6 +820,9 @@ func (s *progSession) add(st tla.State) bool {
 		return false
 	}
 	s.perRun[run]++
+	if len(prog) == 0 {
+		s.roots[run]++
+	}
 	s.seen++
 	node := &pnode{}
 	for _, gv := range st["res"].Set() {
@@ -886,6 +899,12 @@ func (b *binder) runProg(p progRun) error {
 	}
 	c.Logf("MCProg %s: replayed %v (%.0fs total)", p.name, s.perRun, time.Since(t0).Seconds())
 	c.SetExtra("mcprog_states_"+p.name, s.perRun)
+	// vacuity: the model's two actions (Init, Next = Extend) both produced states in every enumeration
+	for _, r := range p.runs {
+		if s.roots[r] == 0 || s.perRun[r] <= s.roots[r] {
+			return fmt.Errorf("MCProg %s: enumeration %s has %d initial and %d extended states", p.name, r, s.roots[r], s.perRun[r]-s.roots[r])
+		}
+	}
 	if p.coverage {
 		if err := coverageAudit("MCProg "+p.name, res, []string{"Init", "Next"}); err != nil {
 			return err
